@@ -93,6 +93,23 @@ def harness_meta(exe):
     return int(subprocess.run([exe, "--meta"], stdout=subprocess.PIPE).stdout.decode().strip())
 
 
+def growth_info(ctx, meta):
+    """`pdshmodel relay growth <meta>`: the side condition of the losslessness theorems (Relay/Growth.lean
+    `growthOk`) evaluated on the regenerated constants, the capacities the buffer runs through, the first
+    growth step that loses data (if any), the marker's spelling"""
+    out = run_model(ctx, ["growth", str(meta)], "")
+    f = dict(w.split("=", 1) for w in (out[0] if out else "").split() if "=" in w)
+    g = {"ok": f.get("ok") == "1", "meta": meta}
+    for k in ("min", "max", "chunk", "meta_assert"):
+        if f.get(k, "").isdigit():
+            g[k] = int(f[k])
+    g["path"] = [int(x) for x in f.get("path", "").split(",") if x.isdigit()]
+    b = f.get("bad", "-")
+    g["bad"] = tuple(int(x) for x in b.split(":")) if ":" in b else None
+    g["magic"] = unhex(f.get("magic", "-")) or MAGIC
+    return g
+
+
 # ----------------------------------------------------------------------------- generators
 TEXT = b"abcdefghijklmnopqrstuvwxyzABCDEFGHIJKLMNOPQRSTUVWXYZ0123456789 .:,;-_/\\%$#@!()[]{}<>|&*+=~^'\"?\t\r"
 
@@ -743,7 +760,7 @@ def d9_probe(ctx, exe, dist):
 def run_check(ctx, prop, props_module, level):
     """the whole procedure shared by checks/c05.py and checks/c06.py"""
     import threading
-    from vlib import relay_real, relay_sched
+    from vlib import relay_real, relay_sched, relay_pinned
     rng = ctx.rng
     # the scratch build for the real-process part takes ~25 s: start it now, in the background
     builder = threading.Thread(target=ctx.repo_build)
@@ -813,13 +830,37 @@ def run_check(ctx, prop, props_module, level):
                                       spoil_kind=rng.choice(["nul", "magic", "magic", "abandon"]), allow_beyond=True))
             if name.startswith("assert"):
                 cases = load_corpus(prop) + cases + exhaustive_small(ctx.tier)
-            plan.append((exe, name, cases))
+            # the pinned boundary classes run FIRST in both flavours, whatever the seed (vlib/relay_pinned.py);
+            # the growth boundaries depend on the flavour's bookkeeping cells
+            g = growth_info(ctx, harness_meta(exe))
+            pinned = relay_pinned.pinned_cases(g, g["magic"], quick)
+            dist["pinned"] = dist.get("pinned", 0) + len(pinned)
+            dist.setdefault("growth", {})[name] = {"growthOk": g["ok"], "min": g.get("min"), "max": g.get("max"),
+                                                   "chunk": g.get("chunk"), "meta": g["meta"], "steps": len(g["path"]),
+                                                   "first_lossy_step": g["bad"]}
+            if not g["ok"]:
+                ctx.log("NOTE [%s]: the regenerated cbuf constants (min %s, max %s, chunk %s, meta %s) do NOT satisfy the "
+                        "side condition growthOk of the losslessness theorems: growth step %s makes no room for the read "
+                        "that triggers it; the pinned streams around that capacity show the loss on the real code"
+                        % (name, g.get("min"), g.get("max"), g.get("chunk"), g["meta"], g["bad"]))
+            if name.startswith("assert") and g.get("meta_assert") != g["meta"]:
+                ctx.disagreement("Gen.RELAY_SIZE_META_ASSERT vs the assertion-enabled harness",
+                                 "constants probe says %s, cbuf.c built with assertions has %s bookkeeping cells"
+                                 % (g.get("meta_assert"), g["meta"]), None)
+            plan.append((exe, name, pinned + cases))
         for exe, name, cases in plan:
             meta = harness_meta(exe)
-            impl = run_impl(exe, [c.ops for c in cases], op_timeout=10 if quick else 60)
             dist["flavours"][name] = len(cases)
-            evaluate(ctx, prop, cases, impl, cov, dist, name, meta=meta)
-            ctx.log("in-process [%s]: %d cases" % (name, len(cases)))
+            # quick tier: of the pinned streams of 128 KiB only those tagged `fifo-too` go through the (slower) FIFO
+            # engine as well (the index engine provably simulates it: Relay/IndexSim.lean)
+            def slow(c):
+                return quick and "huge" in c.tags and "pinned" in c.tags and "fifo-too" not in c.tags
+            for part, engines in (([c for c in cases if slow(c)], ("index",)),
+                                  ([c for c in cases if not slow(c)], ("index", "fifo"))):
+                if part:
+                    impl = run_impl(exe, [c.ops for c in part], op_timeout=20 if quick else 60)
+                    evaluate(ctx, prop, part, impl, cov, dist, name, engines=engines, meta=meta)
+            ctx.log("in-process [%s]: %d cases (%d pinned)" % (name, len(cases), sum("pinned" in c.tags for c in cases)))
         d9_probe(ctx, exe_dbg, dist)
     if not replay:
         # ---- third part: the unmodified dsh.c under the controlled scheduler, adversarial schedules
